@@ -68,6 +68,15 @@ def explore(chk):
                 r, t = plain_row(rng, 1 + 3 * j, rng.randint(33, 40) if long_ else rng.randint(1, 32))
                 rows.append(r); texts.append(t)
             cases.append((popon_text([rows]), [texts], "pop-same-start"))
+    # long programmes: the offending row comes only after many well-formed cues (and sometimes more follow it)
+    for k in ([0, 3, 24, 25, 26, 40, 90] if chk.tier == "quick" else [0, 1, 3, 10, 24, 25, 26, 27, 40, 64, 90, 150]):
+        for after in (0, 5):
+            caps = []; alltexts = []
+            for j in range(k + 1 + after):
+                n = rng.randint(33, 38) if j == k else rng.randint(3, 20)
+                row, t = plain_row(rng, rng.choice([1, 8, 15]), n)
+                caps.append([row]); alltexts.append([t])
+            cases.append((popon_text(caps, doubled=bool(k % 2)), alltexts, "pop-long-programme"))
     N = 300 if chk.tier == "quick" else 8000
     for i in range(N):
         mode = rng.choice(["pop", "pop", "roll", "paint"])
